@@ -61,3 +61,92 @@ impl<const N: usize> AsyncRead for ScriptReader<N> {
         Poll::Ready(Ok(()))
     }
 }
+
+/// scripted reader whose control state never shares an object with symbolic bytes: the data live in a separate
+/// (leaked) array and are only referenced. (Moving a struct that mixes a symbolic array with control fields is
+/// compiled to a byte-wise copy, after which CBMC no longer knows the control fields are constants: every loop exit
+/// and copy length downstream becomes symbolic — measured: 30 GB in propositional reduction for a 4-byte body.)
+/// Delivers `data[..]` cut at `cuts` (one piece per `poll_read`), then `marker` bytes one per read (never EOF).
+pub struct SliceReader {
+    pub data: &'static [u8], pub pos: usize,
+    pub cuts: &'static [usize],
+    pub marker: u8, pub reads: usize, pub reads_after_end: usize, pub eof_instead_of_marker: bool,
+}
+impl SliceReader {
+    pub fn new(data: &'static [u8], cuts: &'static [usize]) -> Self {
+        Self { data, pos: 0, cuts, marker: 0xEE, reads: 0, reads_after_end: 0, eof_instead_of_marker: false }
+    }
+}
+impl AsyncRead for SliceReader {
+    fn poll_read(mut self: Pin<&mut Self>, _: &mut Context<'_>, out: &mut ReadBuf<'_>) -> Poll<std::io::Result<()>> {
+        let this = &mut *self;
+        this.reads += 1;
+        if this.pos >= this.data.len() {
+            this.reads_after_end += 1;
+            if !this.eof_instead_of_marker && out.remaining() > 0 {
+                unsafe { (out.unfilled_mut().as_mut_ptr() as *mut u8).write(this.marker); out.assume_init(1); }
+                out.advance(1);
+            }
+            return Poll::Ready(Ok(()));
+        }
+        let mut end = this.data.len();
+        let mut i = 0;
+        while i < this.cuts.len() { if this.cuts[i] > this.pos && this.cuts[i] < end { end = this.cuts[i]; } i += 1; }
+        let room = out.remaining();
+        if end - this.pos > room { end = this.pos + room; }
+        // byte by byte at concrete indices (a memcpy of a partly symbolic array makes the whole destination
+        // symbolic for CBMC; element-wise stores keep the template's literal bytes constant)
+        let n = end - this.pos;
+        // (through a `*mut u8`: `MaybeUninit<u8>` is a union, and a union store is again a byte-level update)
+        let dst = unsafe { out.unfilled_mut() }.as_mut_ptr() as *mut u8;
+        let mut i = 0;
+        while i < n { unsafe { dst.add(i).write(this.data[this.pos + i]); } i += 1; }
+        unsafe { out.assume_init(n); }
+        out.advance(n);
+        this.pos = end;
+        Poll::Ready(Ok(()))
+    }
+}
+
+/// a request template: the literal bytes of `lit`, with the positions listed in `holes` replaced by unconstrained
+/// symbolic bytes; built element by element in a leaked heap array (see `SliceReader::poll_read`)
+pub fn template<const N: usize>(lit: &[u8; N], holes: &[usize]) -> &'static mut [u8; N] {
+    let d: &'static mut [u8; N] = Box::leak(Box::new([0u8; N]));
+    let mut i = 0;
+    while i < N {
+        let mut hole = false;
+        let mut j = 0;
+        while j < holes.len() { if holes[j] == i { hole = true; } j += 1; }
+        d[i] = if hole { kani::any() } else { lit[i] };
+        i += 1;
+    }
+    d
+}
+
+/// in-memory writer that only counts the first `skip` bytes (a response head whose length is known) and stores what
+/// follows, byte by byte at explicit indices
+pub struct TailWriter<const N: usize> { pub skip: usize, pub total: usize, pub buf: [u8; N], pub len: usize, pub overflow: bool, pub writes: usize }
+impl<const N: usize> TailWriter<N> {
+    pub fn new(skip: usize) -> Self { Self { skip, total: 0, buf: [0; N], len: 0, overflow: false, writes: 0 } }
+}
+impl<const N: usize> AsyncWrite for TailWriter<N> {
+    fn poll_write(mut self: Pin<&mut Self>, _: &mut Context<'_>, data: &[u8]) -> Poll<std::io::Result<usize>> {
+        let this = &mut *self;
+        this.writes += 1;
+        if this.total + data.len() <= this.skip {
+            this.total += data.len();
+            return Poll::Ready(Ok(data.len()));
+        }
+        let mut i = 0;
+        while i < data.len() {
+            if this.total + i >= this.skip {
+                if this.len < N { this.buf[this.len] = data[i]; this.len += 1; } else { this.overflow = true; }
+            }
+            i += 1;
+        }
+        this.total += data.len();
+        Poll::Ready(Ok(data.len()))
+    }
+    fn poll_flush(self: Pin<&mut Self>, _: &mut Context<'_>) -> Poll<std::io::Result<()>> { Poll::Ready(Ok(())) }
+    fn poll_shutdown(self: Pin<&mut Self>, _: &mut Context<'_>) -> Poll<std::io::Result<()>> { Poll::Ready(Ok(())) }
+}
